@@ -77,6 +77,11 @@ CHECKS.update({
    text="Byte comparison over all 24 valid subsets establishes that each emitted file depends only on its own flag; the single-flag variants and a combination are then compiled and compared with the plain build: decoded tables cell by cell, every token sequence and byte string up to the bound (results, errors, positions, action calls).",
    note="Debug output on stdout is discarded, not compared.", ref="6 C12"),
 })
+CHECKS.update({
+ "C11": dict(cat="exploration", tech="deviation-bounded enumeration of map-iteration orders: every range-over-map site of gocc (found by go/types, rewritten through go build -overlay) x order policies, plus plain repeated runs; byte identity of all .go output",
+   text="gocc's only nondeterminism source (Go's randomised map iteration) is put behind a shim the harness controls; starting from sorted order every single-site departure under four permutation policies (thorough: pairs of sites) is executed for each grammar and flag set and all emitted Go bytes, exit status and conflict count must be unchanged; the uninstrumented binary and the real CLI are run as well (binding + plain repeat).",
+   note="A new map range introduced by a change is instrumented automatically because the rewriter works on the working tree; orders outside the policy menu are not covered; other nondeterminism sources are only asserted absent syntactically.", ref="6 C11"),
+})
 NOT_YET = {}
 
 def main():
